@@ -16,7 +16,7 @@
    What is assumed of the number re-rendering is the per-document boolean [leaves_ok rf d].
    The harness evaluates both on every case (Check.v: [mids_ok], [rf_ok_doc rf_go]). *)
 From Coq Require Import List ZArith Bool String Ascii.
-From GZ Require Import C08.Model C08.Spec C17.Model C17.Hyps C17.Proofs C17.ProofsB C17.ProofsC C17.ProofsD.
+From GZ Require Import C08.Model C08.Spec C17.Model C17.Hyps C17.Shapes C17.Proofs C17.ProofsB C17.ProofsC C17.ProofsD C17.ProofsF.
 Import ListNotations.
 Open Scope Z_scope.
 Open Scope string_scope.
@@ -110,6 +110,60 @@ Print Assumptions field_info_characterised.
 Print Assumptions env_only_when_requested.
 Print Assumptions env_expanded_when_requested.
 Print Assumptions env_format_independent.
+
+(* ---------------------------------------------------------------- arbitrary type shapes (Shapes.v) *)
+
+(* Keys are matched case-insensitively for EVERY type shape conf can be given: pointers and
+   pointers to pointers, slices, arrays, maps, structs, embedded structs and pointers to them,
+   anonymous fields of declared slice / map / scalar types, declared scalar types and aliases,
+   time.Duration, json.Number, interface{}, []byte — nested to any depth.  For every such type
+   whose structs have distinct canonical keys, two documents that differ only in the case of keys
+   addressing struct fields (map keys, and everything below an interface{} position, must be
+   identical: [xtr_top]) are turned by toLowerCaseKeyMap into THE SAME map, in every format; so
+   whatever function [um] of that map the unmarshaller is — no model of mapping is involved —
+   the two loads are the same. *)
+Theorem case_insensitive_keys_shapes : forall (R : Type) (um : jv -> R) rf f T d d' info,
+  xkeys_distinct T = true -> xtr_top T d d' = true -> xinfo T = Some info ->
+  um (lc_val (shape rf f d) info) = um (lc_val (shape rf f d') info).
+Proof. exact case_insensitive_shapes_lemma. Qed.
+Print Assumptions case_insensitive_keys_shapes.
+
+(* what buildFieldsInfo makes of each shape: pointers, slices and arrays are transparent, a map
+   adds a layer under which keys are left alone, every scalar-like type (incl. Duration,
+   json.Number, interface{}, []byte, declared scalars) is a leaf, a struct is [xinfo] *)
+Theorem field_info_by_shape :
+  (forall t, info_any (skel (XPtr t)) = info_any (skel t)) /\
+  (forall t, info_any (skel (XSlice t)) = info_any (skel t)) /\
+  (forall n t, info_any (skel (XArr n t)) = info_any (skel t)) /\
+  (forall t, info_any (skel (XMap t)) = option_map (fun ei => FI [] (Some ei)) (info_any (skel t))) /\
+  (forall k, info_any (skel (XPrim k)) = Some fi_empty) /\
+  info_any (skel XDur) = Some fi_empty /\ info_any (skel XNum) = Some fi_empty /\
+  info_any (skel XAny) = Some fi_empty /\ info_any (skel XBytes) = Some fi_empty /\
+  (forall fs, info_any (skel (XStruct fs)) = xinfo fs).
+Proof. exact shape_info_lemma. Qed.
+Print Assumptions field_info_by_shape.
+
+(* below a leaf position no key is touched, at any depth *)
+Theorem leaf_positions_keep_keys : forall d, akeys (lc_doc d fi_empty) = akeys d.
+Proof. exact (proj1 lc_leaf_keeps_keys). Qed.
+Print Assumptions leaf_positions_keep_keys.
+
+(* ---------------------------------------------------------------- histories of conf.Load calls *)
+
+(* "environment variables expanded only when requested", over a whole history of calls on one
+   process: every call's result is that of the call alone — what an earlier call asked for
+   (conf.UseEnv() or not) is irrelevant; in particular a call without UseEnv gives the same
+   result under any two environments, wherever it stands in the history *)
+Theorem env_only_when_requested_history : forall rf T f env calls on,
+  load_history false rf T f env on calls = map (fun c => load_file rf T f (fst c) env (snd c)) calls.
+Proof. exact load_history_independent. Qed.
+Print Assumptions env_only_when_requested_history.
+
+Theorem env_off_call_ignores_environment : forall rf T f env env' before d after on,
+  nth_error (load_history false rf T f env on (before ++ (false, d) :: after)) (List.length before)
+  = nth_error (load_history false rf T f env' on (before ++ (false, d) :: after)) (List.length before).
+Proof. exact env_off_after_any_history. Qed.
+Print Assumptions env_off_call_ignores_environment.
 
 (* the same, on the trees (no oracle involved) *)
 Theorem format_independent_on_trees : forall rf f T d,
@@ -210,6 +264,43 @@ Proof.
   vm_compute. repeat split. discriminate.
 Qed.
 
+(* the remaining exclusion of [std_ok] ([absent_neutral] of a pointer): an absent pointer field whose
+   target needs nothing is allocated by mapping and left nil by encoding/json — the same
+   "materialised empty value" as F8d, here for the degenerate target struct{} (a pointer to a
+   struct with a member is "not set" for mapping, so nothing is compared there) *)
+Theorem absent_pointer_refuted : exists fs d v w,
+  plain_fields fs = true /\ unmarshal fixed jcfg fs d = Ok v /\ stdjson_decode fs d = Ok w /\ v <> w /\
+  v = VStruct [VPtr (VStruct [])] /\ w = VStruct [VNil].
+Proof.
+  exists (FCons "p" None (TPtr (TStruct FNil)) FNil), (Some (JObj [])). eexists. eexists.
+  vm_compute. repeat split. discriminate.
+Qed.
+
+(* every exclusion made by the family predicate [plain_fields fs && std_ok fs d] is witnessed *)
+Theorem std_family_exclusions_witnessed :
+  (exists fs d, plain_fields fs = true /\ std_ok fs d = false /\           (* case-variant key: F8b *)
+     exists v w, unmarshal fixed jcfg fs d = Ok v /\ stdjson_decode fs d = Ok w /\ v <> w) /\
+  (exists fs, plain_fields fs = true /\ std_ok fs (Some (JObj [])) = false /\   (* absent map: F8d *)
+     exists v w, unmarshal fixed jcfg fs (Some (JObj [])) = Ok v /\ stdjson_decode fs (Some (JObj [])) = Ok w /\ v <> w /\
+                 v = VStruct [VMap []]) /\
+  (exists fs, plain_fields fs = true /\ std_ok fs (Some (JObj [])) = false /\   (* absent pointer *)
+     exists v w, unmarshal fixed jcfg fs (Some (JObj [])) = Ok v /\ stdjson_decode fs (Some (JObj [])) = Ok w /\ v <> w /\
+                 v = VStruct [VPtr (VStruct [])]) /\
+  (exists fs d, plain_fields fs = true /\ std_ok fs d = false /\           (* array of nulls only: F8e *)
+     exists v w, unmarshal fixed jcfg fs d = Ok v /\ stdjson_decode fs d = Ok w /\ v <> w /\ v = VStruct [VNil]).
+Proof.
+  repeat split.
+  - exists t_int, (Some (JObj [("a", JNum "2"); ("A", JNum "1")])). vm_compute. repeat split.
+    eexists. eexists. repeat split. discriminate.
+  - exists (FCons "m" None (TMap (TPrim (KInt W0))) FNil). vm_compute. repeat split.
+    eexists. eexists. repeat split. discriminate.
+  - exists (FCons "p" None (TPtr (TStruct FNil)) FNil). vm_compute. repeat split.
+    eexists. eexists. repeat split. discriminate.
+  - exists (FCons "a" None (TSlice (TPrim (KInt W0))) FNil), (Some (JObj [("a", JArr [JNull; JNull])])). vm_compute. repeat split.
+    eexists. eexists. repeat split. discriminate.
+Qed.
+Print Assumptions std_family_exclusions_witnessed.
+
 Print Assumptions float_into_int_refuted.
 Print Assumptions embedded_tag_refuted.
 Print Assumptions case_dup_refuted.
@@ -270,3 +361,34 @@ Example ex_std :
   unmarshal fixed jcfg ex_plain ex_json = stdjson_decode ex_plain ex_json /\
   exists v, stdjson_decode ex_plain ex_json = Ok v.
 Proof. vm_compute. repeat split. eexists. reflexivity. Qed.
+
+(* the hypotheses of case_insensitive_keys_shapes hold of a non-trivial shape: an array of pointers
+   to pointers to a declared struct, a map of slices of pointers to maps of it, an interface{}
+   member; the two spellings get the same lower-cased map, and it is not the document itself *)
+Definition ex_node : xtype :=
+  XStruct (XCons "Host" None (XPrim KStr) (XCons "maxConn" None (XPrim (KInt W0)) (XCons "Meta" None (XMap XAny) XNil))).
+Definition ex_X : xfields :=
+  XCons "Peers" None (XArr 2 (XPtr (XPtr ex_node)))
+ (XCons "ByZone" None (XMap (XSlice (XPtr (XMap ex_node))))
+ (XEmbed false true (XCons "Timeout" None XDur XNil) XNil)).
+Definition ex_xnode (h c k : string) : doc :=
+  DMap (DMcons h (DStr "h1") (DMcons c (DInt 3) (DMcons k (DMap (DMcons "InnerKey" (DInt 1) DMnil)) DMnil))).
+Definition ex_xd : doc :=
+  DMap (DMcons "Peers" (DList (DLcons (ex_xnode "Host" "maxConn" "Meta") DLnil))
+       (DMcons "ByZone" (DMap (DMcons "Host" (DList (DLcons (DMap (DMcons "maxConn" (ex_xnode "Host" "maxConn" "Meta") DMnil)) DLnil)) DMnil))
+       (DMcons "Timeout" (DStr "1s") DMnil))).
+Definition ex_xd' : doc :=
+  DMap (DMcons "PEERS" (DList (DLcons (ex_xnode "hOST" "MAXCONN" "meta") DLnil))
+       (DMcons "byzone" (DMap (DMcons "Host" (DList (DLcons (DMap (DMcons "maxConn" (ex_xnode "HOST" "maxconn" "META") DMnil)) DLnil)) DMnil))
+       (DMcons "TimeOut" (DStr "1s") DMnil))).
+Example ex_shapes :
+  xkeys_distinct ex_X = true /\ xtr_top ex_X ex_xd ex_xd' = true /\
+  (exists info, xinfo ex_X = Some info /\ lc_val (shape rf_go FYaml ex_xd) info = lc_val (shape rf_go FYaml ex_xd') info
+                /\ lc_val (shape rf_go FYaml ex_xd) info <> shape rf_go FYaml ex_xd).
+Proof. vm_compute. repeat split. eexists. repeat split. discriminate. Qed.
+
+Example ex_history :
+  load_history false rf_go (FCons "dsn" None (TPrim KStr) FNil) FJson [("C17_A", "secret")] false
+    [(true, DMap (DMcons "dsn" (DStr "$C17_A") DMnil)); (false, DMap (DMcons "dsn" (DStr "$C17_A") DMnil))]
+  = [Ok (VStruct [VStr "secret"]); Ok (VStruct [VStr "$C17_A"])].
+Proof. vm_compute. reflexivity. Qed.
